@@ -635,6 +635,8 @@ package engine
 
 //@ ghost polled bool
 
+//@ global ctxflow-exempt prolog.(*TermString).Scan writes one finite term into a buffer; no goal is run
+
 //@ extern context.Context.Done
 //@   pure
 //@ extern context.Context.Err
